@@ -348,7 +348,7 @@ var c11Splices = []splice{
 	{name: "increment-of-arithmetic", stmt: "(aa + 1)++"},
 	{name: "increment-of-an-increment", stmt: "aa++ ++"},
 	{name: "increment-of-a-call", stmt: "idf(1)++"},
-	{name: "increment-of-a-negated-name", stmt: "zz = -aa++"},
+	{name: "increment-of-a-parenthesised-negation", stmt: "zz = (-aa)++"},
 	{name: "forin-without-in", stmt: "for (zz, yy [1, 2]) { xx = 1 }"},
 	{name: "forin-over-dollar-as-variable", stmt: "for ($ in [1, 2]) { xx = 1 }"},
 	{name: "unterminated-regex", stmt: "zz = /abc", where: "end"},
